@@ -164,6 +164,12 @@ impl<'a> Machine<'a> {
                 Ok(Some(action))
             }
             D_ERR if matches!(kind, Kind::Fallible(_)) => Err(1000 + action as u32),
+            d if named && matches!(kind, Kind::Fallible(_)) && d >= 200 && d < 240 => {
+                let k = (d - 200) as usize;
+                self.state = self.entries[if k < nsets { k } else { 0 }];
+                self.initial_state = self.state;
+                Err(1000 + action as u32)
+            }
             d if scripted && named && d >= 3 && d < 200 && d % 2 == 1 => {
                 let k = ((d - 3) / 2) as usize;
                 self.state = self.entries[if k < nsets { k } else { 0 }];
